@@ -122,7 +122,12 @@ pub fn dag(quick: bool) -> Vec<Scenario> {
     let join: &[(u32, &[u32])] = &[(0, &[]), (1, &[]), (2, &[0, 1])];
     // unusual but legal input: a task names the same dependency twice
     let dup: &[(u32, &[u32])] = &[(0, &[]), (1, &[0, 0]), (2, &[1, 0, 1])];
+    // a dependency on a task that is listed later in the same submit (the server must either
+    // reject the submit or respect the dependency)
+    let forward: &[(u32, &[u32])] = &[(1, &[2]), (2, &[])];
     let mut v = vec![
+        Scenario::new("dag-forward-ref", vec![w(2)], vec![vec![sub(SubmitSpec::graph(forward, RqSpec::cpus(1)))]])
+            .budgets(0, 1, 0, 1),
         Scenario::new("dag-dup-dep", vec![w(1)], vec![vec![sub(SubmitSpec::graph(dup, RqSpec::cpus(1)))]])
             .budgets(0, 1, 0, 1),
         Scenario::new("dag-chain", vec![w(1)], vec![vec![sub(SubmitSpec::graph(chain, RqSpec::cpus(1)))]])
@@ -234,7 +239,7 @@ pub fn prefill(quick: bool) -> Vec<Scenario> {
         )
         .prefill(1, 1)
         .budgets(1, 0, 1, 2)
-        .depth(9),
+        .depth(12),
     ];
     // pre-sent tasks of two request classes on one worker, either job canceled
     v.push(
